@@ -179,7 +179,7 @@ func (r *stepRig) run(c *stepCase, code []uint8) stepOutcome {
 	o.discs = eng.StateDiff(&o.got, &o.want, &o.pre, &o.in)
 	o.discs = append(o.discs, eng.LogDiff(r.ib, r.mb)...)
 	if r.retn.n != o.in.RetN || r.reti.n != o.in.RetI {
-		o.discs = append(o.discs, eng.Disc{Kind: eng.KState,
+		o.discs = append(o.discs, eng.Disc{Kind: eng.KIntr,
 			Msg: fmt.Sprintf("RETN/RETI handler calls %d/%d want %d/%d", r.retn.n, r.reti.n, o.in.RetN, o.in.RetI)})
 	}
 	return o
@@ -499,7 +499,7 @@ func init() {
 }
 
 var stepKinds = map[string]map[string]bool{
-	"C01": {eng.KState: true, eng.KFlags: true, eng.KMemImg: true, eng.KPortOut: true, eng.KInvalid: true},
+	"C01": {eng.KState: true, eng.KIff: true, eng.KFlags: true, eng.KMemImg: true, eng.KPortOut: true, eng.KInvalid: true},
 	"C05": {eng.KAccess: true},
 	"C14": {eng.KRefresh: true},
 }
